@@ -13,6 +13,48 @@ import (
 
 // execJudge runs a case and applies the common oracle.
 func execJudge(c Case) *ev.Result {
+	if c.Search > 0 {
+		return execSearch(c)
+	}
+	return execJudge1(c)
+}
+
+// execSearch: see Case.Search.
+func execSearch(c Case) *ev.Result {
+	var hit *ev.Result
+	runs := 0
+	EnumBounded(c.Search, 0, 1, func(pre [][2]int) ([]int, bool) {
+		cs := c
+		cs.Search = 0
+		cs.Sched = Schedule{Preempt: pre}
+		var cands []int
+		CountCands = &cands
+		r := execJudge1(cs)
+		CountCands = nil
+		runs++
+		if r.Fail != "" {
+			r.Fail = fmt.Sprintf("with forced preemptions %v: %s", pre, r.Fail)
+			hit = r
+			return cands, false
+		}
+		if c.FindKnown != "" {
+			for _, k := range r.KnownHits {
+				if k == c.FindKnown {
+					hit = r
+					return cands, false
+				}
+			}
+		}
+		return cands, true
+	})
+	if hit == nil {
+		hit = &ev.Result{}
+	}
+	hit.Count("search_runs", int64(runs))
+	return hit
+}
+
+func execJudge1(c Case) *ev.Result {
 	r := &ev.Result{}
 	run := Execute(c, false)
 	Judge(c, run, r)
